@@ -88,7 +88,7 @@ def one_stage(cell, tgt, ll, ms, M, seed):
     st.update_current(dict(u=u, x=x, logl=logl, assignments=a, beta=beta, calls=0, iter=1, logz=0.0))
     per = [0] if cell["boundary"] == "periodic" else None
     ref = [0] if cell["boundary"] == "reflective" else None
-    mut = Mutator(state=st, prior_transform=tgt.T, log_likelihood=ll, pbar=None, n_particles=M, n_dim=d, n_steps=1, n_max_steps=1,
+    mut = Mutator(state=st, prior_transform=tgt.T, log_likelihood=ll, pbar=None, n_particles=M, n_dim=d, n_steps=cell.get("n_steps", 1), n_max_steps=cell.get("n_max_steps", 1),
                   sampler=cell["kernel"], periodic=per, reflective=ref, have_blobs=False)
     run = seams.RngRun((seed * 7 + 1) % (2**31), record=0)
     restore = []
@@ -117,7 +117,7 @@ def run_case(cell):
     pts = [np.asarray(f.ppf(qs, 0.0, 1.0, beta)) for f in fs]
     mom = [f.moments(0.0, 1.0, beta) for f in fs]
     stats_out, zs = [], []
-    if d == 1:
+    if d == 1 and not cell.get("multi"):
         u1, acc, steps, u0 = one_stage(cell, tgt, ll, ms, cell["M"], cell["seed"])
         M = len(u1)
         for j, (q, p) in enumerate(zip(qs, pts[0])):
@@ -158,7 +158,7 @@ def run_case(cell):
         # t-distribution with calls-1 dof: convert the threshold (two-sided 2e-9) to the t scale
     zmax = max(zs, key=lambda t: abs(t[3]))
     thr = Z
-    if d > 1:
+    if d > 1 or cell.get("multi"):
         from scipy import stats as sst
 
         thr = float(sst.t.isf(sst.norm.sf(Z), cell["calls"] - 1))
@@ -172,8 +172,8 @@ def run_case(cell):
         violations.append(dict(property=PROP, oracle="invariance", detail=f"{cell['kernel']} on a {cell['boundary']} coordinate, factor {cell['factor']}, beta={beta}, d={d}, K={cell['K']}, nu={cell['nu']}, sigma={cell.get('sigma')}: "
                                f"after the mutate stage {zmax[0]}[coord {zmax[1]}, q={zmax[2]}] is off by z={zmax[3]:+.1f} (threshold {thr:.1f}); acceptance {acc:.2f}",
                                keys=dict(kernel=cell["kernel"], boundary=btype, d_gt1=bool(d > 1), assignment=assign)))
-    return dict(violations=violations, stats=dict(walkers=cell["M"], stages=1 if d == 1 else cell["calls"]), probes={}, digest=json.dumps([round(z[3], 6) for z in zs][:4]),
-                distinct_key=json.dumps({k: cell.get(k) for k in ("kernel", "boundary", "factor", "beta", "d", "K", "nu", "sigma", "mean_outside", "assign", "companion")}, sort_keys=True),
+    return dict(violations=violations, stats=dict(walkers=cell["M"], stages=1 if (d == 1 and not cell.get("multi")) else cell["calls"], multi_step_cells=int(bool(cell.get("multi")))), probes={}, digest=json.dumps([round(z[3], 6) for z in zs][:4]),
+                distinct_key=json.dumps({k: cell.get(k) for k in ("kernel", "boundary", "factor", "beta", "d", "K", "nu", "sigma", "mean_outside", "assign", "companion", "multi", "n_steps", "n_max_steps")}, sort_keys=True),
                 nontrivial=0.02 < acc < 0.98, zmax=abs(zmax[3]) / thr * Z, cellkey=f"{cell['kernel']}/{btype}" + ("/assign-by-position" if assign == "position" else ""),
                 sample=dict(cell={k: cell[k] for k in ("kernel", "boundary", "factor", "beta", "d", "K", "nu", "sigma")}, acceptance=round(acc, 3), max_abs_z=round(abs(zmax[3]), 2), statistic=zmax[:3]))
 
@@ -198,6 +198,9 @@ def cases(seed, tier):
         if k % 8 == 7 or (tier != "quick" and r.random() < 0.15):
             # labels that depend on the particle's position (as produced by clusterer.predict in the resampling stage), two different modes
             cell.update(K=2, assign="position", split=r.choice([0.2, 0.3, 0.5]), boundary="hard-abutting" if boundary.startswith("hard") else boundary, mean_outside=False)
+        if k % 8 == 3 or (tier != "quick" and r.random() < 0.15):
+            # several adaptive steps: the stop rule (adaptive number of steps) and the step-size adaptation take part
+            cell.update(multi=True, n_steps=r.choice([2, 3]), n_max_steps=r.choice([6, 10, 20]))
         if kernel == "tpcn" and cell["sigma"] is not None:
             cell["sigma"] = min(cell["sigma"], 0.99)
         out.append(cell)
